@@ -108,8 +108,12 @@ class PackUnpackRoundTrip(Lemma):
     4*ceil(n/(32/bits)); value k sits at bits [bits*(k % per), ...) of word k // per (format layout)"""
     name = "lemma:unpack(pack(v))==v-and-layout"
     props = ("C02",)
-    configs = (4, 8, 16, 32)          # widths 1 and 2 (32 / 16 fields per word) exceed the solver budget: bounded below
-    timeout_ms = 60000
+    configs = (4, 8, 16, 32)          # widths 1 and 2 (32 / 16 fields per word) exceed the quick budget: bounded below
+    timeout_ms = 120000
+
+    def configs_for(self, tier):
+        # width 2 discharges (21 obligations, about 7 minutes on one core when the machine is otherwise idle): thorough tier only
+        return [2, 4, 8, 16, 32] if tier == "thorough" else list(self.configs)
 
     def run(self, c, bits):
         n = c.int("n", inp=True)
